@@ -1,8 +1,8 @@
 #ifndef VERIF_SHIM_STDATOMIC_H
 #define VERIF_SHIM_STDATOMIC_H
 #include_next <stdatomic.h>
-void verif_point(const char *op, const volatile void *addr, int order, const char *file, int line);
-void verif_result(const char *op, const volatile void *addr, unsigned long long before, unsigned long long after);
+void verif_pre(const char *op, const volatile void *addr, int order, int line);
+void verif_post(const char *op, const volatile void *addr, unsigned long long before, unsigned long long after);
 #undef atomic_load
 #undef atomic_store
 #undef atomic_fetch_add
@@ -10,12 +10,12 @@ void verif_result(const char *op, const volatile void *addr, unsigned long long 
 #undef atomic_fetch_or
 #undef atomic_fetch_and
 #undef atomic_compare_exchange_weak
-#define atomic_load(p) ({ verif_point("load", (p), __ATOMIC_SEQ_CST, __FILE__, __LINE__); __auto_type v_ = __atomic_load_n((p), __ATOMIC_SEQ_CST); verif_result("load", (p), v_, v_); v_; })
-#define atomic_store(p, v) ({ verif_point("store", (p), __ATOMIC_SEQ_CST, __FILE__, __LINE__); __auto_type n_ = (v); __atomic_store_n((p), n_, __ATOMIC_SEQ_CST); verif_result("store", (p), 0, n_); })
-#define VERIF_RMW(name, builtin, p, v) ({ verif_point(name, (p), __ATOMIC_SEQ_CST, __FILE__, __LINE__); __auto_type o_ = builtin((p), (v), __ATOMIC_SEQ_CST); verif_result(name, (p), o_, __atomic_load_n((p), __ATOMIC_RELAXED)); o_; })
+#define atomic_load(p) ({ verif_pre("load", (p), __ATOMIC_SEQ_CST, __LINE__); __auto_type v_ = __atomic_load_n((p), __ATOMIC_SEQ_CST); verif_post("load", (p), v_, v_); v_; })
+#define atomic_store(p, v) ({ verif_pre("store", (p), __ATOMIC_SEQ_CST, __LINE__); __auto_type n_ = (v); __atomic_store_n((p), n_, __ATOMIC_SEQ_CST); verif_post("store", (p), 0, n_); })
+#define VERIF_RMW(name, builtin, p, v) ({ verif_pre(name, (p), __ATOMIC_SEQ_CST, __LINE__); __auto_type o_ = builtin((p), (v), __ATOMIC_SEQ_CST); verif_post(name, (p), o_, __atomic_load_n((p), __ATOMIC_RELAXED)); o_; })
 #define atomic_fetch_add(p, v) VERIF_RMW("fetch_add", __atomic_fetch_add, p, v)
 #define atomic_fetch_sub(p, v) VERIF_RMW("fetch_sub", __atomic_fetch_sub, p, v)
 #define atomic_fetch_or(p, v)  VERIF_RMW("fetch_or", __atomic_fetch_or, p, v)
 #define atomic_fetch_and(p, v) VERIF_RMW("fetch_and", __atomic_fetch_and, p, v)
-#define atomic_compare_exchange_weak(p, e, d) ({ verif_point("cas", (p), __ATOMIC_SEQ_CST, __FILE__, __LINE__); __auto_type ex_ = *(e); _Bool ok_ = __atomic_compare_exchange_n((p), (e), (d), 0, __ATOMIC_SEQ_CST, __ATOMIC_SEQ_CST); verif_result(ok_ ? "cas_ok" : "cas_fail", (p), ex_, __atomic_load_n((p), __ATOMIC_RELAXED)); ok_; })
+#define atomic_compare_exchange_weak(p, e, d) ({ verif_pre("cas", (p), __ATOMIC_SEQ_CST, __LINE__); __auto_type ex_ = *(e); _Bool ok_ = __atomic_compare_exchange_n((p), (e), (d), 0, __ATOMIC_SEQ_CST, __ATOMIC_SEQ_CST); verif_post(ok_ ? "cas_ok" : "cas_fail", (p), ex_, __atomic_load_n((p), __ATOMIC_RELAXED)); ok_; })
 #endif
